@@ -79,6 +79,18 @@ def findings():
                     got="; ".join(hits) or "residuals stay at rounding level after an early breakdown", expected="relative residual ~ 1e-16 for every max_iters >= 1",
                     what="after an inexact early breakdown (eigenvector right-hand side) the Arnoldi loop does not stop (its test compares the new norm with tol*H[1,0], which is that norm itself) "
                          "and continues with noise divided by tol/2; the Arnoldi relation is lost and the residual of gmres grows from 1e-16 (max_iters=1) to 1e-6..1e-3 (max_iters>=3, tol<=1e-9), or the solve is singular"))
+    # a zero initial residual (zero right-hand side with x0 = 0, or x0 already exact): 0/0 in init_arnoldi
+    try:
+        with np.errstate(all="ignore"):
+            x, _ = gmres(Dense(np.array([[2.0, 1.0], [0.0, 3.0]])), np.array([[1.0, 0.0], [2.0, 0.0]]), max_iters=2, tol=1e-7)
+        x = np.asarray(x)
+        present = bool(not np.all(np.isfinite(x)) or np.any(x[:, 1] != 0))
+        got = "x=%s" % x.tolist()
+    except Exception as e:  # noqa
+        present, got = True, "raised %s: %s" % (type(e).__name__, e)
+    out.append(dict(flag="gmres_zero_residual_nan", present=present, witness="gmres(Dense([[2,1],[0,3]]), B=[[1,0],[2,0]], max_iters=2)", got=got,
+                    expected="second column [0, 0] (x0 is already the solution of that column)",
+                    what="a column whose initial residual is exactly zero (zero right-hand side with x0 = 0, or an exact initial guess) is returned as NaN: init_arnoldi divides the start vector by its norm 0"))
     return out
 
 
@@ -91,7 +103,7 @@ def gen_system(rs, sid, nmax, kexp):
     return dict(A=A, n=n, cplx=cplx, kind=kind, kappa=float(np.linalg.cond(A)), sys_id=sid)
 
 
-def gen_rhs(rs, s, eig=False):
+def gen_rhs(rs, s, eig=False, zero_ok=False):
     n, cplx, A = s["n"], s["cplx"], s["A"]
     nc = int(rs.choice([1, 1, 2, 3]))
     if eig:
@@ -126,6 +138,12 @@ def gen_rhs(rs, s, eig=False):
         X0 = None if x0kind == "none" else (np.zeros_like(B) if x0kind == "zeros" else rnd)
     if X0 is not None:
         X0 = X0.astype(B.dtype)
+    if zero_ok and nc > 1 and rs.random() < 0.2:      # a column with zero initial residual (only once that defect is repaired)
+        j = int(rs.integers(0, nc))
+        B[:, j] = 0
+        if X0 is not None:
+            X0[:, j] = 0
+        rk += "+zero column"
     return dict(B=B, X0=X0, nc=nc, rhs=rk, x0kind=x0kind, vector_api=bool(nc == 1 and rs.random() < 0.5))
 
 
@@ -165,13 +183,14 @@ def run(ctx):
     fnd = findings()
     flags = {f["flag"]: bool(f["present"]) for f in fnd}
     sq = flags.get("gmres_square_H", False)
+    zero_ok = not flags.get("gmres_zero_residual_nan", True)
     rs = L.np_rng(ctx)
     nmax = ctx.budget(10, 16)
     cases, sid = [], 0
     for _ in range(ctx.budget(90, 600)):          # stream 1: random right-hand sides, m below / at / beyond n
         s = gen_system(rs, sid, nmax, 1.5)
         sid += 1
-        r = gen_rhs(rs, s)
+        r = gen_rhs(rs, s, zero_ok=zero_ok)
         n = s["n"]
         ms = sorted(set([1, n, n + int(rs.integers(1, 5))] + [int(x) for x in rs.integers(1, n + 1, size=3)]))
         tol = float(10 ** rs.uniform(-10, -4))
@@ -180,7 +199,7 @@ def run(ctx):
     for _ in range(ctx.budget(50, 350)):          # stream 2: eigenvector right-hand sides (early breakdown)
         s = gen_system(rs, sid, nmax, 1.5)
         sid += 1
-        r = gen_rhs(rs, s, eig=True)
+        r = gen_rhs(rs, s, eig=True, zero_ok=zero_ok)
         n = s["n"]
         tol = float(10 ** rs.uniform(-10, -4))
         for m in sorted(set([1, 2, 3, n, n + 2, int(rs.integers(1, n + 4))])):
@@ -190,6 +209,8 @@ def run(ctx):
     # (max_iters > n stays in the comparison on a repaired tree too: the model with gmres_square_H cleared keeps the
     # (m+1) x m buffer and masks per column, which makes zero-padded columns inert)
     def modelled(c):
+        if "zero column" in c["rhs"]:        # the model transcribes the pinned 0/0
+            return False
         if any(G.overrun_columns(c)[0]):      # steps taken after a column's breakdown work on rounding noise: not comparable entry-wise
             return False
         return True
@@ -224,7 +245,7 @@ def run(ctx):
         cplx = s["cplx"]
         A = G.make_matrix(rs, n, cplx, s["kind"], float(10 ** rs.uniform(0, 3)))
         s = dict(s, A=A, n=n, kappa=float(np.linalg.cond(A)))
-        r = gen_rhs(rs, s, eig=bool(rs.random() < 0.3))
+        r = gen_rhs(rs, s, eig=bool(rs.random() < 0.3), zero_ok=zero_ok)
         c = dict(s, **r, m=int(rs.choice([n, n + 5, int(rs.integers(1, n + 1))])), tol=float(10 ** rs.uniform(-10, -5)), stream="large")
         o = G.run_impl(c)
         bad, info = G.oracle(c, o, flags)
